@@ -39,6 +39,10 @@ def slices(ctx):
                              PolyOps=["setop"], DevOps=[]), True)
     s["transforms-wide"] = (dict(FULL, Boxes=pa.all_boxes(3, -2, 2) if q else pa.all_boxes(3), MaxBoxes=1, MaxOps=1,
                                  PolyOps=TRANSFORMS, DevOps=[]), True)
+    # the primitives' own `angle` / `center` / `points` arguments (no set operations here: cos(90 deg) is 6e-17 in
+    # tdgl.geometry.rotate, so tilted boxes are exact only up to 1 ulp and edge-sharing overlays are outside the exact model)
+    s["primitives-tilted"] = (dict(FULL, Boxes=pa.all_boxes(3, -1, 2) if q else pa.all_boxes(3, -2, 3), TiltQuarters=[0, 1, 2, 3], MaxBoxes=1,
+                                   MaxOps=1, PolyOps=["rotate", "translate", "copy"], DevOps=[]), True)
     if q:
         s["poly-depth2"] = (dict(FULL, Quarters=[1, 2], Shifts=[(1, 0), (-2, 1)], Factors=[(-1, 1), (2, 1), (-1, -2)], Origins=[(0, 0)],
                                  Boxes=[B_OVER, B_ADJ], MaxBoxes=2, MaxOps=2, PolyOps=pa.POLY_OPS, DevOps=[]), True)
@@ -187,6 +191,17 @@ def run(ctx):
             elif seen_probes and o["op"] in ("devrotate", "devscale", "devtranslate", "devcopy"):
                 probe_ops[o["op"] + (" about an origin other than (0,0)" if o["op"] in ("devrotate", "devscale") and tuple(o["org"]) != (0, 0) else "")
                           + " after a device with probe points exists"] += 1
+    tilted = collections.Counter()
+    for c in chains:
+        for st in c:
+            o = st["o"]
+            if o["op"] == "new" and o["q"]:
+                x0, y0, x1, y1 = pa.unbox(o["a"])
+                asym = (x1 - x0 != y1 - y0) or (x0 + x1 != 0) or (y0 + y1 != 0)
+                tilted["angle %d, %s" % (90 * o["q"], "not symmetric under the tilt" if asym else "centred square")] += 1
+    ctx.cov["boxes_built_through_the_angle_argument"] = dict(tilted)
+    if not ctx.violations and (tilted["angle 90, not symmetric under the tilt"] < 20 or tilted["angle 270, not symmetric under the tilt"] < 20):
+        raise core.MachineryFailure("C18: too few asymmetric boxes built with angle=90 / 270 (vacuous)")
     ctx.cov["chains_per_frame"] = dict(frames)
     ctx.cov["probe_point_operations"] = dict(probe_ops)
     if not ctx.violations:
@@ -218,6 +233,11 @@ def run(ctx):
                 raise core.MachineryFailure(f"C18: {kind} never observed with outcome {out}")
     ctx.cov["relation_setops_validated"] = sum(t["nset"] for t in rel_tr)
     ctx.cov["relation_device_probe_transforms"] = sum(t["nprobe"] for t in rel_tr)
+    ctx.cov["relation_primitive_cases"] = dict(sum((collections.Counter(t["nprim"]) for t in rel_tr), collections.Counter()))
+    if not ctx.violations:
+        for k in ("box tilted (not a multiple of 180, w != h)", "ellipse tilted (not a multiple of 180, a != b)", "geometry.rotate"):
+            if ctx.cov["relation_primitive_cases"].get(k, 0) < 30:
+                raise core.MachineryFailure(f"C18: too few relation cases '{k}' (vacuous)")
     ctx.cov["relation_traces_per_place"] = dict(collections.Counter(str(tuple(t["place"])) for t in rel_tr))
     if not ctx.violations:
         if ctx.cov["relation_device_probe_transforms"] < 50 or ctx.cov["relation_setops_validated"] < 50:
